@@ -246,6 +246,14 @@ def misc(rep, repo, mod):
         rep.violate('C02.init', mod, li, md[0] if md else 'self.mdim', 'mdim must be ceil(log2(m)): 1, 2, 3 planes for 2-, 4-, 8-valued logic', node=md[0] if md else li)
 
 
+def depends(rep, repo):
+    """Rules of the mechanisms this property's results rest on (schedule validity and memory map of SimOps): a change
+    that breaks them breaks this property too, so they are part of this check (rule ids keep their C07./C08. prefix)."""
+    from checks import c07, c08
+    c07.schedule_rules(rep, repo)
+    c08.map_rules(rep, repo)
+
+
 def thorough(rep, repo):
     """Thorough tier: the quick rules plus checker self-validation on the C02 slice of the mutation corpus , a second evaluator for engine A and an alias sweep."""
     from kvstatic import thorough as thorough_mod
